@@ -304,6 +304,7 @@ type rs_sim struct {
 	owed     [][3]uint64 // snapshot status reports owed to a busy sender: leader, peer, ok
 	noApply  uint64      // replica whose application does NOT apply conf changes before Advance (study only)
 	nextRead uint64
+	side     map[uint64]int // network partition: messages only flow between replicas on the same side (nil = none)
 }
 
 func (s *rs_sim) inc(k string) { s.cnt[k]++ }
@@ -534,6 +535,9 @@ func (s *rs_sim) observeInput(r *rs_rep, e rs_jev, pre, post raft.VState) {
 			s.inc("campaigns_with_unapplied_entries")
 		}
 	}
+	if e.Ev == "tick" && pre.Transferee != 0 && post.Transferee == 0 && post.Role == "StateLeader" {
+		s.inc("transfer_aborted_by_timeout")
+	}
 	if e.Ev == "recv" {
 		if e.M.T == "MsgVote" && post.Vote == e.M.From && (pre.Vote != post.Vote || pre.Term != post.Term) {
 			s.inc("votes_granted")
@@ -543,6 +547,12 @@ func (s *rs_sim) observeInput(r *rs_rep, e rs_jev, pre, post raft.VState) {
 			if r.restarts > 0 {
 				s.inc("votes_after_restart")
 			}
+		}
+		if e.M.T == "MsgTimeoutNow" && post.Role == "StateCandidate" && pre.Role == "StateFollower" {
+			s.inc("timeoutnow_campaigns")
+		}
+		if e.M.T == "MsgVote" && e.M.Force && post.Vote == e.M.From && pre.Lead != 0 && pre.Term < post.Term {
+			s.inc("forced_votes_granted_while_leader_known")
 		}
 		if (e.M.T == "MsgVote" || e.M.T == "MsgPreVote") && post.IsLearner {
 			s.inc("vote_requests_at_learner")
@@ -1002,6 +1012,66 @@ func (s *rs_sim) proposeConf(r *rs_rep, typ pb.ConfChangeType, target uint64) {
 	s.take(r, rs_jev{Ev: "proposeconf", CC: k}, s.moreApplyFor(r), false)
 }
 
+// readsOK: known finding raft-readindex-counts-learner-acks - read requests are kept out of runs in
+// which a learner can exist (flag -noavoid lifts this).
+func (s *rs_sim) readsOK() bool {
+	return s.noAvoid || (len(s.cfg.Learners) == 0 && s.cfg.Profile != "mixed")
+}
+
+// scenarioStaleReadViaLearner (profile readlearner; isolate stage of the finding): the leader is
+// partitioned away together with its learner, the other voters elect a new leader and commit,
+// a read is requested at the old leader: only the learner acknowledges the heartbeat round.
+func (s *rs_sim) scenarioStaleReadViaLearner() {
+	s.phase = "stale-read-via-learner"
+	l := s.electLeader()
+	if l == 0 || len(s.cfg.Learners) == 0 {
+		return
+	}
+	lr := s.reps[l]
+	lid := s.cfg.Learners[0]
+	s.finishReady(lr)
+	s.proposeConf(lr, pb.ConfChangeAddLearnerNode, lid)
+	s.calmRounds(8)
+	if !s.live(s.reps[lid]) || !rs_contains(raft.VerifState(lr.n).Learners, lid) {
+		return
+	}
+	s.side = map[uint64]int{}
+	for _, id := range s.ids {
+		s.side[id] = 2
+	}
+	s.side[l], s.side[lid] = 1, 1
+	var l2 uint64
+	for k := 0; k < 120 && l2 == 0 && !s.panicked; k++ {
+		for _, id := range s.ids {
+			r := s.reps[id]
+			if s.side[id] != 2 || !s.live(r) {
+				continue
+			}
+			s.drain(r)
+			if v := raft.VerifState(r.n); v.Role == "StateLeader" {
+				l2 = id
+			} else if s.live(r) && r.rd == nil {
+				s.tick(r)
+			}
+		}
+		s.calmRounds(1)
+	}
+	if l2 != 0 {
+		s.finishReady(s.reps[l2])
+		if s.reps[l2].rd == nil {
+			s.proposeSized(s.reps[l2], 0)
+		}
+		s.calmRounds(4)
+	}
+	if s.live(lr) && raft.VerifState(lr.n).Role == "StateLeader" {
+		s.finishReady(lr)
+		s.readIndex(lr)
+		s.inc("scenario_stale_read_requested")
+		s.calmRounds(4)
+	}
+	s.side = nil
+}
+
 // readIndex: a linearizable read request (Node.ReadIndex) issued at r; the ReadState comes back
 // in a later Ready of the same replica.
 func (s *rs_sim) readIndex(r *rs_rep) {
@@ -1082,10 +1152,14 @@ func (s *rs_sim) flushReports() {
 	}
 }
 
+func (s *rs_sim) cut(from, to uint64) bool {
+	return s.blocked[to] || s.blocked[from] || (s.side != nil && s.side[from] != s.side[to])
+}
+
 func (s *rs_sim) eligible() []int {
 	var el []int
 	for j, m := range s.net {
-		if s.blocked[m.To] || s.blocked[m.From] {
+		if s.cut(m.From, m.To) {
 			continue
 		}
 		t := s.reps[m.To]
@@ -1235,7 +1309,7 @@ func (s *rs_sim) randomStep() {
 	x := s.rng.Intn(100)
 	v := raft.VerifState(r.n)
 	isLeader := v.Role == "StateLeader"
-	if s.rng.Intn(16) == 0 || (s.phase == "leader-with-learners" && s.rng.Intn(5) == 0) {
+	if s.readsOK() && (s.rng.Intn(16) == 0 || (s.phase == "leader-with-learners" && s.rng.Intn(5) == 0)) {
 		// at any replica: served by the leader, forwarded by a follower, dropped without a leader;
 		// two times out of three at the current leader (if it is idle)
 		t := r
@@ -1270,7 +1344,7 @@ func (s *rs_sim) randomStep() {
 			s.tick(r)
 		}
 	case x < 36:
-		if isLeader && s.cfg.Profile != "noconf" && s.cfg.Profile != "growone" && s.cfg.Profile != "snapdiv" && s.cfg.Profile != "shrinkq" {
+		if isLeader && s.cfg.Profile != "noconf" && s.cfg.Profile != "growone" && s.cfg.Profile != "snapdiv" && s.cfg.Profile != "shrinkq" && s.cfg.Profile != "readlearner" {
 			s.proposeConfRandom(r)
 		} else {
 			s.tick(r)
@@ -1437,7 +1511,7 @@ func (s *rs_sim) calmRounds(n int) {
 		batch := s.net
 		s.net = nil
 		for _, m := range batch {
-			if s.blocked[m.To] || s.blocked[m.From] {
+			if s.cut(m.From, m.To) {
 				s.net = append(s.net, m)
 				continue
 			}
@@ -1994,6 +2068,95 @@ func (s *rs_sim) scenarioShrinkingQuorum() {
 	s.noApply = 0
 }
 
+// scenarioTransferRaces (>= 3 voters; from MC behaviours with FTransfer): leadership transfer
+// racing a configuration change and crashes.
+//  variant 0: "remove T" is proposed and still unapplied when the leader is asked to transfer to T;
+//             T gets MsgTimeoutNow, campaigns with the force flag (inside the lease under CheckQuorum).
+//  variant 1: the leader crashes right after MsgTimeoutNow left; T campaigns, the old leader restarts.
+//  variant 2: T crashes before MsgTimeoutNow arrives; the leader's transfer times out (ticks), it
+//             accepts proposals again; T restarts.
+// A committed entry proposed just before the transfer must survive all of them (the invariants).
+func (s *rs_sim) scenarioTransferRaces(variant int) {
+	s.phase = "transfer-races"
+	s.blocked = map[uint64]bool{}
+	l := s.electLeader()
+	if l == 0 {
+		return
+	}
+	lr := s.reps[l]
+	lv := raft.VerifState(lr.n)
+	var t uint64
+	for _, id := range lv.Voters {
+		if id != l && s.live(s.reps[id]) && !s.reps[id].learner {
+			t = id
+		}
+	}
+	if t == 0 || len(lv.Voters) < 3 {
+		return
+	}
+	tr := s.reps[t]
+	s.calmRounds(2)
+	s.finishReady(lr)
+	if lr.rd == nil {
+		s.proposeSized(lr, 0)
+	}
+	s.calmRounds(2)
+	if !s.live(lr) || raft.VerifState(lr.n).Role != "StateLeader" {
+		return
+	}
+	s.finishReady(lr)
+	switch variant {
+	case 0:
+		if len(lv.Voters) > 3 && !s.removedEver[t] && s.cfg.Profile == "mixed" {
+			s.blocked = map[uint64]bool{t: true} // T lags: the transfer has to wait for it
+			s.proposeConf(lr, pb.ConfChangeRemoveNode, t)
+			s.finishReady(lr)
+			s.blocked = map[uint64]bool{}
+		}
+		if s.live(lr) && lr.rd == nil {
+			s.transfer(lr, t)
+		}
+		s.calmRounds(6)
+	case 1:
+		s.transfer(lr, t)
+		s.finishReady(lr) // MsgTimeoutNow (or the catch-up append) has left
+		s.calmRounds(1)
+		if s.live(lr) {
+			s.finishReady(lr)
+			s.crash(lr)
+		}
+		s.calmRounds(5)
+		if lr.down && !lr.gone {
+			s.restart(lr)
+		}
+		s.calmRounds(4)
+	default:
+		s.blocked = map[uint64]bool{t: true}
+		s.transfer(lr, t)
+		s.finishReady(lr)
+		if s.live(tr) {
+			s.finishReady(tr)
+			s.crash(tr)
+		}
+		s.blocked = map[uint64]bool{}
+		for k := 0; k < 3*s.elTick && s.live(lr); k++ { // the transfer times out
+			s.finishReady(lr)
+			if lr.rd == nil {
+				s.tick(lr)
+			}
+		}
+		s.finishReady(lr)
+		if s.live(lr) && lr.rd == nil && raft.VerifState(lr.n).Role == "StateLeader" {
+			s.proposeSized(lr, 0) // accepted again once the transfer was aborted
+		}
+		if tr.down && !tr.gone {
+			s.restart(tr)
+		}
+		s.calmRounds(5)
+	}
+	s.inc("scenario_transfer_races_done")
+}
+
 // scenarioGrowOne (profile growone; from MC_ZRaft_Conf behaviours and the restart rule): the
 // group grows from the single voter 1; replica 1 snapshots while it is alone, more than one
 // Ready page of ordinary entries and then AddNode 2, AddNode 3 follow in its log; 1 crashes,
@@ -2472,6 +2635,9 @@ func raftsim(args []string) error {
 		if s.cfg.Profile == "growone" {
 			s.scenarioGrowOne()
 		}
+		if s.cfg.Profile == "readlearner" {
+			s.scenarioStaleReadViaLearner()
+		}
 		if s.cfg.Profile == "shrinkq" && len(s.cfg.Voters) >= 5 && !s.cfg.CQ && !s.cfg.PreVote {
 			s.scenarioShrinkingQuorum()
 		}
@@ -2483,6 +2649,10 @@ func raftsim(args []string) error {
 		if (s.cfg.Profile == "mixed" || s.cfg.Profile == "noconf") && !s.cfg.PreVote && !s.cfg.CQ && len(s.cfg.Voters) >= 3 {
 			s.scenarioVoteSameTerm()
 		}
+		if (s.cfg.Profile == "mixed" || s.cfg.Profile == "noconf") && len(s.cfg.Voters) >= 3 && int(*seed)%2 == 0 {
+			s.scenarioTransferRaces(int(*seed/2) % 3)
+			s.scenarioTransferRaces(int(*seed/2+1) % 3)
+		}
 		if (s.cfg.Profile == "mixed" || s.cfg.Profile == "noconf") && strings.HasPrefix(s.storage, "rocks") && len(s.cfg.Voters) >= 3 {
 			s.scenarioDivergentSuffix(int(*seed) % 2)
 			s.scenarioDivergentSuffix(int(*seed+1) % 2)
@@ -2493,6 +2663,7 @@ func raftsim(args []string) error {
 			}
 		}
 		// learners named on the command line: added by whoever leads, early in the run
+		pendingLearnersDone := s.cfg.Profile == "readlearner"
 		pendingLearners := append([]uint64{}, s.cfg.Learners...)
 		phaseEnd := 0
 		for s.step = 0; s.step < *steps && !s.panicked; s.step++ {
@@ -2502,7 +2673,7 @@ func raftsim(args []string) error {
 				}
 				phaseEnd = s.step + s.newPhase()
 			}
-			if len(pendingLearners) > 0 {
+			if len(pendingLearners) > 0 && !pendingLearnersDone {
 				if l := s.leaderID(); l != 0 && s.reps[l].rd == nil {
 					lv := raft.VerifState(s.reps[l].n)
 					if !lv.PendingConf {
